@@ -26,17 +26,33 @@ def check(run):
     single = [call(op, k) for op in ("Add", "Remove", "Has") for k in KEYS] + [call("Len")]
     multi = [call("AddSet", s=s) for s in ([1], [1, 2])] + [call("RemoveSet", s=s) for s in ([2], [1, 2])]
     ops = single + multi
-    # set-up prefixes: all sequences of Add/Remove/Has/Len up to length L (they build the read/dirty/expunged layouts)
+    # set-up prefixes: every sequence of Add/Remove/Has/Len up to length L is run once (fine trace), grouped by the internal layout
+    # (read / dirty / expunged entries, amended flag, miss counter) it builds; one shortest prefix per layout is used as set-up
     L = 3 if q else 4
-    setups = [list(s) for n in range(0, L + 1) for s in itertools.product(single, repeat=n)]
-    if q:
-        setups = [s for s in setups if len(s) <= 2] + run.rng.sample([s for s in setups if len(s) == 3], 40)
-    elif len(setups) > 600:
-        setups = [s for s in setups if len(s) <= 3] + run.rng.sample([s for s in setups if len(s) == 4], 250)
+    seqs = [list(s) for n in range(0, L + 1) for s in itertools.product(single, repeat=n)]
+    _, fines = run_programs(run, "syncset", [program(s, [], "schedule") | dict(fine=1) for s in seqs])
+    layouts = {}
+    lkey = lambda last: json.dumps([last["r"], last["d"], last["am"], last["dn"], last["ms"]])
+    for sq, f in zip(seqs, fines):
+        if lkey(f[-1]) not in layouts or len(sq) < len(layouts[lkey(f[-1])]):
+            layouts[lkey(f[-1])] = sq
+    # closed under one more call, breadth first (an expunged entry needs four calls, longer histories reach nothing new after a while)
+    frontier, depth = [sq for sq in layouts.values() if len(sq) == L], L
+    while frontier and depth < 9:
+        depth += 1
+        ext = [sq + [o] for sq in frontier for o in single]
+        _, fx = run_programs(run, "syncset", [program(sq, [], "schedule") | dict(fine=1) for sq in ext])
+        frontier = []
+        for sq, f in zip(ext, fx):
+            if lkey(f[-1]) not in layouts:
+                layouts[lkey(f[-1])] = sq
+                frontier.append(sq)
+    setups = sorted(layouts.values(), key=lambda sq: (len(sq), json.dumps(sq)))
     conc = []
     pairs = [(a, b) for a in ops for b in ops]
+    same = [(a, b) for a in single for b in single if a["k"] == b["k"] or not a["k"] or not b["k"]]     # same value (or Len): the races of one entry
     for s in setups:
-        ps = pairs if not q else run.rng.sample(pairs, 12)
+        ps = pairs if not q else same + run.rng.sample(pairs, 10)
         for a, b in ps:
             conc.append(program(s, [[a], [b]], "dfs", n=300, preempt=2 if q else 3))
     rnd = []
@@ -58,11 +74,11 @@ def check(run):
     validate(run, "syncmap", "SetAbsTrace", dict(NK=3, NT=8), segs, [], plans=replay_plans(srcs), label="history")
     for r in run.rejections:
         r["fact"] = True
-    run.cov.update(dfs_programs=len(conc), random_programs=len(rnd), executions=run.cov.get("executions_total", 0),
+    run.cov.update(layouts=len(setups), sequential_sequences=len(seqs), dfs_programs=len(conc), random_programs=len(rnd), executions=run.cov.get("executions_total", 0),
                    distinct_histories=len(segs), deadlocks=sum(1 for h in allh if h["deadlock"]), exhaustive=False,
                    distinct_nontrivial=len(segs),
                    rule="executions = every hook-level schedule with <= 2 (thorough 3) preemptions of 2 goroutines x 1 set call "
-                        "(Add/Remove/Has/Len/AddSet/RemoveSet over 2 values) after set-up prefixes of <= %d calls, plus seeded random schedules "
+                        "(Add/Remove/Has/Len/AddSet/RemoveSet over 2 values) from every distinct internal layout reachable by call sequences (all of <= %d calls, then closed breadth first), plus seeded random schedules "
                         "of 3, 4 and 8 goroutines x 1-2 calls over 3 values; every history ends with a quiescent Has/Len/Slice read-back; "
                         "distinct_nontrivial = distinct histories validated by TLC" % L)
     run.cov["samples"] = [segs[len(segs) // 2][:14]]
